@@ -136,7 +136,7 @@ def variant(rec, r, E, desc, workdir):
         # SuitEnvelope.sever(): load -> sever -> dump(suit)
         from suit_generator.envelope import SuitEnvelope
         src = drive.fresh(workdir, ".suit")
-        dst = drive.fresh(workdir, ".suit")
+        dst = drive.fresh_out(workdir, ".suit")
         with open(src, "wb") as fh:
             fh.write(E)
         try:
@@ -179,7 +179,7 @@ def variant(rec, r, E, desc, workdir):
     name = r.choice(names)
     from suit_generator import cmd_payload_extract
     src = drive.fresh(workdir, ".suit")
-    dst = drive.fresh(workdir, ".suit")
+    dst = drive.fresh_out(workdir, ".suit")
     with open(src, "wb") as fh:
         fh.write(E)
     rp = None
@@ -246,6 +246,29 @@ def check_roundtrip(rec, E, vname, desc, route, fmt, hier, full):
         rec.violation(mech, text, full, observed={"E": E, "shown": shown})
 
 
+def dependency_variant(r, E):
+    """the same hierarchy with ONE dependency replaced by a leaner form of itself (its integrated payloads and severed
+    members removed - what payload extraction / severing leave): the dependency's manifest, hence the digest the
+    parent records, is unchanged, its envelope is not.  -> bytes or None"""
+    env = envmodel.Env(E)
+    cands = []
+    for name, node in env.str_members.items():
+        if node.mt != 2:
+            continue
+        try:
+            child = envmodel.Env(node.val)
+        except envmodel.EnvelopeError:
+            continue
+        keep = [(k, mcbor.Raw(n.raw)) for k, n in child.members
+                if not ((isinstance(k, int) and k in R.SEVERABLE_CODES) or isinstance(k, str))]
+        if len(keep) < len(child.members):
+            cands.append((name, mcbor.enc(mcbor.Tag(107, mcbor.Pairs(keep)))))
+    if not cands:
+        return None
+    name, lean = r.choice(cands)
+    return mcbor.enc(mcbor.Tag(107, mcbor.Pairs([(k, lean if k == name else mcbor.Raw(n.raw)) for k, n in env.members])))
+
+
 def run_case(rec, case):
     desc = case.get("desc") or build(case)
     r = common.case_rng(case["seed"], ID + "/route", case["n"])
@@ -280,6 +303,14 @@ def run_case(rec, case):
                      "hierarchy": hier, "envelope_len": len(E), "dependencies": feats.get("dependencies", 0)})
     full = dict(case, desc=desc, route=route, fmt=fmt, hier=hier, variant_name=vname)
     check_roundtrip(rec, E, vname, desc, route, fmt, hier, full)
+    if feats.get("dependencies") and hier and route != "sub":
+        # second parse in the same process: the same hierarchy with a leaner form of one dependency (same manifest)
+        E2 = dependency_variant(r, E)
+        if E2 is not None:
+            rec.count("variant:dependency-made-leaner(second parse in the same process)")
+            rec.case(E2 + f"dep-lean/{fmt}".encode(), True)
+            check_roundtrip(rec, E2, vname + "+dependency-made-leaner", desc, route, fmt, hier,
+                            dict(full, variant_name=vname + "+dependency-made-leaner"))
 
 
 def run_shard(rec, shard, nshards):
